@@ -27,7 +27,8 @@ META = {
         " Round 7: TractParser starts from the tract's flags whenever Tract.parse replaces them; the description-level error check asks the tracts, not the staged components; TRS.is_error / is_undef decided for all 216 component-state x switch combinations; flag-prefix ambiguity."
         ' Round 8: gen_flags_chunk() dominates every return of its caller; the pp_twprge_pm wildcard also deletes warning wording (known finding).'
         ' Round 9: keyword pre-test tables are implied by the warning patterns (members enumerated).'
-        " Round 10: `flags.append(pair[0]); flag_lines.append(pair)` is a pair by construction (shape read off the helper's returns)."),
+        " Round 10: `flags.append(pair[0]); flag_lines.append(pair)` is a pair by construction (shape read off the helper's returns)."
+        ' Round 11: a `flags` property derived from `flag_lines` pairs by construction.'),
     'families': ['PAIR', 'TBL', 'ORDER', 'RX-LANG', 'FORWARD', 'DEADPARAM', 'SIB-DEFAULTS'],
 }
 
@@ -220,6 +221,18 @@ def check(ctx):
                     and isinstance(prev.value.func, ast.Attribute) \
                     and isinstance(prev.value.func.value, ast.Attribute) \
                     and prev.value.func.value.attr in FLAG_ATTRS
+                if not ok and norm(c.func.value.value) == 'self':
+                    # the class derives its flags from the flag lines (`flags` is a property that reads
+                    # `[flag for flag, _ in self.flag_lines]`): nothing can get out of step
+                    top = fi
+                    while top.outer is not None:
+                        top = top.outer
+                    fattr = {v: k for k, v in LINE_OF.items()}.get(c.func.value.attr)
+                    if top.cls is not None and fattr:
+                        prop = ctx.repo.find_method(top.cls, fattr)
+                        if prop is not None and any((dotted(d) or '') == 'property' for d in prop.node.decorator_list) \
+                                and any(isinstance(x, ast.Attribute) and x.attr == c.func.value.attr for x in ast.walk(prop.node)):
+                            ok = True
                 ctx.check(ok, 'PAIR', f"{fi.qualname}: {norm(st)[:60]}",
                           'preceded by its flag', "a flag line is added without its flag",
                           key=f"PAIR|{fi.qualname}|orphan-line|{norm(c.args[0])[:40] if c.args else ''}",
